@@ -179,14 +179,16 @@ Definition sys_rmtree (s : st) (names : list bytes) : st * option errno :=   (* 
       | Some _ => (set_fs s1 (fs_del (fs s1) k), None)
       end
   end.
+(* symlink(2) refuses an empty target with ENOENT before it looks at the link path *)
 Definition sys_symlink (target : bytes) (s : st) (names : list bytes) : st * option errno :=
+  if is_nil target then (s, Some ENOENT)
+  else
   match resolve s names with
   | (s1, inl e) => (s1, Some e)
   | (s1, inr k) =>
       match fs_get (fs s1) k with
       | Some _ => (s1, Some EEXIST)
-      | None => if is_nil target then (s1, Some ENOENT)
-                else (set_fs s1 (fs_set (fs s1) k (NLink target)), None)
+      | None => (set_fs s1 (fs_set (fs s1) k (NLink target)), None)
       end
   end.
 (* open(O_WRONLY|O_NOFOLLOW| O_CREAT|O_EXCL  or  O_CREAT|O_TRUNC, mode 0666 or 0777) followed by write_all *)
